@@ -31,7 +31,7 @@ ASSUMPTIONS = [
 ]
 BOUNDS = {"quick": {"variables": "<=5", "terms": "<=2 a, <=3 g"}, "thorough": {"variables": "<=6", "terms": "<=2 a, <=3 g"}}
 OPTS = {"quick": {"tier_budget_s": 230, "max_paths": 1500, "job_budget_s": 60, "witness_rate": 0.3}, "thorough": {"tier_budget_s": 2400, "max_paths": 20000, "job_budget_s": 400}}
-OPS = ["compose", "quotient", "merge", "refines", "rename", "rename-direct", "copy", "tl-simplify", "elim-refine", "elim-relax", "optimize", "bounds", "machine-dict", "string-dict", "parse", "contains", "is-empty", "tl-ops", "evaluate"]
+OPS = ["compose", "quotient", "merge", "merge-source", "compose-source", "elim-chain", "parse-pair", "refines", "rename", "rename-direct", "copy", "tl-simplify", "elim-refine", "elim-relax", "optimize", "bounds", "machine-dict", "string-dict", "parse", "contains", "is-empty", "tl-ops", "evaluate"]
 REACH = {"quick": ["returned", "raised"] + ["op:" + o for o in OPS]}
 
 
@@ -53,6 +53,19 @@ def jobs(tier, seed):
                 job["c2"] = CS.rand_contract(rng, c1["in"], c1["out"], alphabet)
             if op == "compose":
                 job["keep"] = [v for v in c1["out"] + c2["out"] if rng.random() < 0.3]
+            if op in ("merge-source", "compose-source"):
+                # the second operand has an empty input list (a source), or an empty output list (a sink)
+                if rng.random() < 0.6:
+                    job["c2"] = {"in": [], "out": ["s"], "a": [], "g": [{"s": rng.choice([-1, 1])}]}
+                else:
+                    job["c2"] = {"in": ["s"], "out": [], "a": [{"s": rng.choice([-1, 1])}], "g": []}
+            if op == "elim-chain":
+                # a chain of two-variable rows: tactic 4 has to recurse through a second eliminated variable
+                sg = rng.choice([-1, 1])
+                job["chain"] = {"terms": [{"x": sg * rng.choice([1, 2]), "z": rng.choice([-1, 1])}], "ctx": [{"x": sg, "y": -sg}, {"y": sg, "w": rng.choice([-1, 1])}], "elim": ["x", "y"]}
+                job["tactics"] = rng.choice([[4], [4], [1, 4], [4, 5]])
+            if op == "parse-pair":
+                job["texts"] = rng.choice([["x <= 1e5", "x <= 1 e5"], ["2x + y <= 3", "2 x+y<=3"], ["x - 1e1 y <= 2", "x - 1 e1 y <= 2"], ["|x| <= 4", "| x | <= 4"]])
             out.append(job)
     return out
 
@@ -130,6 +143,40 @@ def mutable_ids(obj, acc=None):
     return acc
 
 
+def _captured(fn):
+    """Mutable state a callable carries: functools.partial arguments, defaults, closure cells."""
+    import functools
+
+    out = []
+    if isinstance(fn, functools.partial):
+        out.append(("partial", repr(fn.args), repr(sorted(fn.keywords.items()))))
+        fn = fn.func
+    out.append(("defaults", repr(getattr(fn, "__defaults__", None)), repr(getattr(fn, "__kwdefaults__", None))))
+    cells = getattr(fn, "__closure__", None) or ()
+    vals = []
+    for c in cells:
+        try:
+            v = c.cell_contents
+            vals.append(repr(v) if isinstance(v, (list, dict, set, tuple, int, float, str)) else type(v).__name__)
+        except ValueError:
+            vals.append("<empty>")
+    out.append(("closure", vals))
+    return out
+
+
+def _module_containers(mod):
+    """Sizes/contents of module-level lists, dicts and sets (caches show up here)."""
+    out = []
+    for name, v in sorted(vars(mod).items()):
+        if name.startswith("__"):
+            continue
+        if isinstance(v, (list, set)) and not name.isupper():
+            out.append((mod.__name__, name, len(v)))
+        elif isinstance(v, dict) and not name.isupper():
+            out.append((mod.__name__, name, len(v)))
+    return out
+
+
 def module_state():
     import numpy as np
     import pacti.contracts.polyhedral_iocontract as PC
@@ -142,6 +189,8 @@ def module_state():
         "PC.TACTICS_ORDER": list(PC.TACTICS_ORDER),
         "TACTICS": sorted(P.PolyhedralTermList.TACTICS),
         "TACTICS-ids": [id(P.PolyhedralTermList.TACTICS[k]) for k in sorted(P.PolyhedralTermList.TACTICS)],
+        "TACTICS-captured": [_captured(P.PolyhedralTermList.TACTICS[k]) for k in sorted(P.PolyhedralTermList.TACTICS)],
+        "module-level-containers": _module_containers(P) + _module_containers(S) + _module_containers(PC) + _module_containers(G),
         "grammar": [id(G.expression), id(G.terms), id(G.term), id(G.abs_term), id(G.floating_point_number)],
         "grammar-actions": [len(getattr(G.expression, "parseAction", [])), len(getattr(G.terms, "parseAction", []))],
         "tolerances": (S.float_closeness_relative_tolerance, S.float_closeness_absolute_tolerance),
@@ -173,8 +222,17 @@ def run(ctx, job):
             return c1.compose_tactics(c2, keep, job["simplify"], tactics)[0]
         if op == "quotient":
             return c1.quotient_tactics(c2, add, job["simplify"], tactics)[0]
-        if op == "merge":
+        if op in ("merge", "merge-source"):
             return c1.merge(c2)
+        if op == "compose-source":
+            return c1.compose_tactics(c2, [], job["simplify"], tactics)[0]
+        if op == "elim-chain":
+            ch = job["chain"]
+            return chain_tl.elim_vars_by_refining(chain_cx, [B.Var(v) for v in ch["elim"]], simplify=job["simplify"], tactics_order=tactics)[0]
+        if op == "parse-pair":
+            first = S.polyhedral_termlist_from_string(job["texts"][0])
+            second = S.polyhedral_termlist_from_string(job["texts"][1])
+            return [P.PolyhedralTermList(first), P.PolyhedralTermList(second)]
         if op == "refines":
             return bool(c1.refines(c2))
         if op == "rename":
@@ -213,6 +271,12 @@ def run(ctx, job):
         raise ValueError(op)
 
     parse_text = "2 x + |y - 3| <= 4 z"
+    chain_tl = chain_cx = None
+    if op == "elim-chain":
+        chain_tl = B.mk_tl(ctx, job["chain"]["terms"], "ct")
+        chain_cx = B.mk_tl(ctx, job["chain"]["ctx"], "cc")
+        operands["chain_tl"] = chain_tl
+        operands["chain_cx"] = chain_cx
     if op == "string-dict":
         ctx.eng.path_state["literal_tokens"] = False
     before = {k: snap(v) for k, v in operands.items()}
@@ -226,6 +290,18 @@ def run(ctx, job):
     except Exception as e:
         raised = B.classify(e)
     ctx.tag("raised" if raised else "returned")
+    if op == "parse-pair" and raised is None:
+        # history independence of the parser: the same second string parsed in the reverse order of calls
+        try:
+            alone = P.PolyhedralTermList(S.polyhedral_termlist_from_string(job["texts"][1]))
+            first_again = P.PolyhedralTermList(S.polyhedral_termlist_from_string(job["texts"][0]))
+            ctx.expect("parse-result-independent-of-earlier-parses", same(ctx, snap(res[1]), snap(alone)) and same(ctx, snap(res[0]), snap(first_again)), info=str(job["texts"]))
+            # and the two spellings differ exactly when their meanings differ (checked on the real parser in C09);
+            # here: a string with a space inside a number must not be read as the number
+            if job["texts"] == ["x <= 1e5", "x <= 1 e5"] or job["texts"] == ["x - 1e1 y <= 2", "x - 1 e1 y <= 2"]:
+                ctx.expect("space-inside-number-changes-the-reading", not same(ctx, snap(res[0]), snap(res[1])), info=str(job["texts"]))
+        except Exception as e:
+            ctx.expect("parse-result-independent-of-earlier-parses", False, info=B.classify(e))
     after = {k: snap(v) for k, v in operands.items()}
     for k in operands:
         ctx.expect("operand-unchanged", same(ctx, before[k], after[k]), info=f"{op}:{k}")
